@@ -42,6 +42,7 @@ type MultiDB struct {
 	// fetchGated: the remote peer holds entries of every database that the instance lacks; only head
 	// exchanges over the direct channel, deliveries and releases of the instance's parked block fetches are
 	// offered, so that replication of one database is in flight while another database's heads arrive
+	noRepl     bool // the instance's databases do not replicate over pubsub; "psync:<i>" hands db i the remote heads
 	fetchGated bool
 	exchanged  []int
 	owner      map[string]int // entry hash -> database index (remote entries)
@@ -91,8 +92,14 @@ func NewMultiDBNamed(kinds []string, lists []string, sameName bool) (*MultiDB, e
 // NewMultiDBOpts: with sharedOpts the databases are created by the remote peer and the instance under test
 // opens all of them with ONE options value (an application that keeps a single options struct).
 func NewMultiDBOpts(kinds []string, lists []string, sameName, sharedOpts bool) (*MultiDB, error) {
-	w := &MultiDB{net: sim.NewNet(), events: map[string]int{}}
-	shared := &orbitdb.CreateDBOptions{Replicate: boolp(true)}
+	return NewMultiDBRepl(kinds, lists, sameName, sharedOpts, true)
+}
+
+// NewMultiDBRepl: with replicate false the instance under test opens its databases with Replicate=false (no
+// pubsub); entries of the remote peer then reach it through explicit "psync" actions only.
+func NewMultiDBRepl(kinds []string, lists []string, sameName, sharedOpts, replicate bool) (*MultiDB, error) {
+	w := &MultiDB{net: sim.NewNet(), events: map[string]int{}, noRepl: !replicate}
+	shared := &orbitdb.CreateDBOptions{Replicate: boolp(replicate)}
 	var err error
 	if w.P, err = w.net.AddPeer("P").Start(nil); err != nil {
 		return nil, err
@@ -121,7 +128,7 @@ func NewMultiDBOpts(kinds []string, lists []string, sameName, sharedOpts bool) (
 				return nil, err
 			}
 		} else {
-			if sp, err = w.P.DB.Create(bg, name, k, &orbitdb.CreateDBOptions{AccessController: ac, Replicate: boolp(true)}); err != nil {
+			if sp, err = w.P.DB.Create(bg, name, k, &orbitdb.CreateDBOptions{AccessController: ac, Replicate: boolp(replicate)}); err != nil {
 				return nil, err
 			}
 			if sr, err = w.R.DB.Open(bg, sp.Address().String(), &orbitdb.CreateDBOptions{Replicate: boolp(true)}); err != nil {
@@ -326,6 +333,16 @@ func (w *MultiDB) Enabled() []string {
 			out = append(out, fmt.Sprintf("exchange:%d", i))
 		}
 	}
+	if w.noRepl {
+		for i, d := range w.dbs {
+			for _, e := range d.sr.OpLog().GetEntries().Slice() {
+				if _, ok := d.sp.OpLog().Get(e.GetHash()); !ok {
+					out = append(out, fmt.Sprintf("psync:%d", i))
+					break
+				}
+			}
+		}
+	}
 	return out
 }
 
@@ -381,6 +398,15 @@ func (w *MultiDB) Do(a string) error {
 		w.net.PubSub.InjectDirect(w.R.Peer.ID, w.P.Peer.ID, payload)
 		if w.fetchGated {
 			w.exchanged[target]++
+		}
+	case "psync": // the application hands database i the remote peer's heads itself
+		target = int(arg[0] - '0')
+		hs, err := WireCopy(w.dbs[target].addr, w.dbs[target].sr.OpLog().Heads().Slice())
+		if err != nil {
+			return err
+		}
+		if err := w.dbs[target].sp.Sync(bg, hs); err != nil {
+			w.report(explore.Violation{Signature: "sync-failed", Detail: err.Error()})
 		}
 	case "load":
 		target = int(arg[0] - '0')
@@ -531,15 +557,16 @@ func (w *MultiDB) Close() {
 }
 
 type C09Arg struct {
-	FetchGated int // > 0: entries per database held by the remote peer only; block fetches gated
-	SharedOpts bool
-	SameName   bool
-	Gated      bool
-	Kinds      []string
-	Lists      []string
-	Depth      int
-	Shards     int
-	Shard      int
+	NoReplicate bool // the instance's databases are opened with Replicate=false
+	FetchGated  int  // > 0: entries per database held by the remote peer only; block fetches gated
+	SharedOpts  bool
+	SameName    bool
+	Gated       bool
+	Kinds       []string
+	Lists       []string
+	Depth       int
+	Shards      int
+	Shard       int
 }
 
 func (a C09Arg) Name() string {
@@ -556,13 +583,16 @@ func (a C09Arg) Name() string {
 	if a.FetchGated > 0 {
 		g += fmt.Sprintf("/gated-fetches-%d", a.FetchGated)
 	}
+	if a.NoReplicate {
+		g += "/not-replicating"
+	}
 	return fmt.Sprintf("multidb/%s/%s/d%d%s/shard%d.%d", strings.Join(a.Kinds, "+"), strings.Join(a.Lists, "+"), a.Depth, g, a.Shard, a.Shards)
 }
 
 func init() {
 	explore.Register(&explore.CheckDef{
 		ID: "C09", Level: "model_checking",
-		Rule: "one instance with its shared event bus holds 2-3 databases (type mixes, write lists {both peers, wildcard}); a remote instance holds replicas; explicit-state DFS over write(db), load(db), remote write(db) (announced on that database's topic), head exchange for db over the direct channel and delivery of any in-flight message, up to the depth bound; also with databases that share one name but differ in type or write list, with databases opened through one shared options value, and with the instance's block fetches gated so that the heads of one database arrive while another database's replication is in flight (then every database must still end up with everything announced to it). After every action: every database not named by the action keeps its entry set, heads, view, cached heads, replication status and emitted-event counts; every topic/direct message sent by the instance carries its own address and only heads of that log; every write/replicated event carries only entries of its own address. Non-trivial = states in which at least two databases hold entries.",
+		Rule: "one instance with its shared event bus holds 2-3 databases (type mixes, write lists {both peers, wildcard}); a remote instance holds replicas; explicit-state DFS over write(db), load(db), remote write(db) (announced on that database's topic), head exchange for db over the direct channel and delivery of any in-flight message, up to the depth bound; also with databases that share one name but differ in type or write list, with databases opened through one shared options value, with databases that do not replicate over pubsub and are handed remote heads explicitly, and with the instance's block fetches gated so that the heads of one database arrive while another database's replication is in flight (then every database must still end up with everything announced to it). After every action: every database not named by the action keeps its entry set, heads, view, cached heads, replication status and emitted-event counts; every topic/direct message sent by the instance carries its own address and only heads of that log; every write/replicated event carries only entries of its own address. Non-trivial = states in which at least two databases hold entries.",
 		Units: func(tier string) []explore.Unit {
 			cfgs := []C09Arg{
 				{Kinds: []string{"eventlog", "eventlog"}, Lists: []string{"both", "both"}, Depth: 4},
@@ -585,6 +615,7 @@ func init() {
 			cfgs = append(cfgs, C09Arg{SameName: true, Kinds: []string{"eventlog", "keyvalue"}, Lists: []string{"both", "both"}, Depth: gd - 3})
 			cfgs = append(cfgs, C09Arg{SameName: true, Kinds: []string{"eventlog", "eventlog"}, Lists: []string{"both", "*"}, Depth: gd - 3})
 			cfgs = append(cfgs, C09Arg{SharedOpts: true, Kinds: []string{"eventlog", "keyvalue"}, Lists: []string{"both", "*"}, Depth: gd - 3})
+			cfgs = append(cfgs, C09Arg{NoReplicate: true, Kinds: []string{"eventlog", "keyvalue"}, Lists: []string{"both", "both"}, Depth: gd - 2})
 			cfgs = append(cfgs, C09Arg{FetchGated: 2, Kinds: []string{"eventlog", "keyvalue"}, Lists: []string{"both", "both"}, Depth: 9})
 			cfgs = append(cfgs, C09Arg{Gated: true, Kinds: []string{"eventlog", "eventlog"}, Lists: []string{"both", "both"}, Depth: gd})
 			cfgs = append(cfgs, C09Arg{Gated: true, Kinds: []string{"keyvalue", "eventlog"}, Lists: []string{"both", "*"}, Depth: gd})
@@ -612,9 +643,9 @@ func init() {
 				return
 			}
 			d := &explore.DFS{
-				Scenario: a.Name(), Space: fmt.Sprintf("multidb/%s/%s/gated=%v/same=%v/shared=%v/fetch=%d", strings.Join(a.Kinds, "+"), strings.Join(a.Lists, "+"), a.Gated, a.SameName, a.SharedOpts, a.FetchGated),
+				Scenario: a.Name(), Space: fmt.Sprintf("multidb/%s/%s/gated=%v/same=%v/shared=%v/fetch=%d/norepl=%v", strings.Join(a.Kinds, "+"), strings.Join(a.Lists, "+"), a.Gated, a.SameName, a.SharedOpts, a.FetchGated, a.NoReplicate),
 				New: func() (explore.World, error) {
-					w, err := NewMultiDBOpts(a.Kinds, a.Lists, a.SameName, a.SharedOpts)
+					w, err := NewMultiDBRepl(a.Kinds, a.Lists, a.SameName, a.SharedOpts, !a.NoReplicate)
 					if err == nil && a.FetchGated > 0 {
 						err = w.PrepareFetchGated(a.FetchGated)
 					}
